@@ -30,6 +30,8 @@ pub struct PeerLink {
     reasm: reftr::Reassembler,
     /// non-data link frames seen from the other side, with time
     pub link_frames: Vec<(u64, RefFrame)>,
+    /// order number at which each entry of `link_frames` was written by the other side
+    pub link_frame_orders: Vec<u64>,
     /// count of octets that did not deframe cleanly
     pub garbage_octets: usize,
     pub frames_seen: usize,
@@ -45,6 +47,7 @@ impl PeerLink {
             consumed: 0,
             reasm: reftr::Reassembler::new(4096),
             link_frames: Vec::new(),
+            link_frame_orders: Vec::new(),
             garbage_octets: 0,
             frames_seen: 0,
         }
@@ -145,6 +148,7 @@ impl PeerLink {
                         }
                     } else {
                         self.link_frames.push((t, f));
+                        self.link_frame_orders.push(order);
                     }
                 }
                 reflink::Candidate::Incomplete => break,
